@@ -298,6 +298,81 @@ fn wrap_edge(edge: &str, inner: &[u8]) -> Vec<u8> {
     }
 }
 
+/// Linear-time construction of deeply nested inputs: pieces are collected as (prefix, suffix) pairs
+/// from the inside out; the total length so far is all a bstr head needs.
+pub struct Nester {
+    core: Vec<u8>,
+    prefixes: Vec<Vec<u8>>,
+    suffixes: Vec<Vec<u8>>,
+    len: usize,
+}
+
+impl Nester {
+    pub fn new(core: &[u8]) -> Nester {
+        Nester { core: core.to_vec(), prefixes: Vec::new(), suffixes: Vec::new(), len: core.len() }
+    }
+    pub fn len(&self) -> usize {
+        self.len
+    }
+    pub fn wrap(&mut self, prefix: &[u8], suffix: &[u8]) {
+        self.len += prefix.len() + suffix.len();
+        self.prefixes.push(prefix.to_vec());
+        self.suffixes.push(suffix.to_vec());
+    }
+    /// Wrap the current content into a byte string.
+    pub fn wrap_bstr(&mut self) {
+        let mut head = Vec::new();
+        super::bstr_head(self.len, &mut head);
+        self.wrap(&head, &[]);
+    }
+    /// One more level through one of the four header -> counter-signature -> header edges.
+    pub fn wrap_edge(&mut self, edge: &str) {
+        if &edge[1..] == "p" {
+            self.wrap_bstr();
+            self.wrap(&[0x83], &[0xa0, 0x40]);
+        } else {
+            self.wrap(&[0x83, 0x40], &[0x40]);
+        }
+        if &edge[..1] == "s" {
+            self.wrap(&[0xa1, 0x07], &[]);
+        } else {
+            self.wrap(&[0xa1, 0x07, 0x81], &[]);
+        }
+    }
+    pub fn finish(self) -> Vec<u8> {
+        let mut out = Vec::with_capacity(self.len);
+        for p in self.prefixes.iter().rev() {
+            out.extend_from_slice(p);
+        }
+        out.extend_from_slice(&self.core);
+        for s in self.suffixes.iter() {
+            out.extend_from_slice(s);
+        }
+        out
+    }
+}
+
+/// The linear-time nester builds the same bytes as the straightforward recursive wrapper.
+pub fn selftest() -> Result<usize, String> {
+    let mut n = 0;
+    for w in edge_words() {
+        for depth in [1usize, 2, 7, 30, 300] {
+            let mut plain = vec![0xa0u8];
+            let mut nest = Nester::new(&[0xa0]);
+            for i in 0..depth {
+                let e = w[(depth - 1 - i) % w.len()];
+                plain = wrap_edge(e, &plain);
+                nest.wrap_edge(e);
+            }
+            if nest.len() != plain.len() || nest.finish() != plain {
+                return Err(format!("nester differs from wrap_edge for {:?} depth {}", w, depth));
+            }
+            n += 1;
+        }
+    }
+    Ok(n)
+}
+
 /// All words of length <= 3 over the four edges.
 pub fn edge_words() -> Vec<Vec<&'static str>> {
     let mut v = Vec::new();
@@ -352,10 +427,11 @@ pub fn family(name: &str, n: usize) -> Option<(Vec<(Ty, Entry)>, Vec<u8>)> {
         "depth" => {
             let word: Vec<&str> = parts[1].split('-').collect();
             let carrier: usize = parts[2].parse().ok()?;
-            let mut h = vec![0xa0u8];
+            let mut nest = Nester::new(&[0xa0]);
             for i in 0..n {
-                h = wrap_edge(word[(n - 1 - i) % word.len()], &h);
+                nest.wrap_edge(word[(n - 1 - i) % word.len()]);
             }
+            let h = nest.finish();
             let (ty, entry, bytes) = header_entries(&h).into_iter().nth(carrier)?;
             Some((vec![(ty, entry)], bytes))
         }
@@ -364,22 +440,24 @@ pub fn family(name: &str, n: usize) -> Option<(Vec<(Ty, Entry)>, Vec<u8>)> {
         "depthmix" => {
             let upl: usize = parts[1].parse().ok()?;
             let carrier: usize = parts[2].parse().ok()?;
-            let mut h = vec![0xa0u8];
+            let mut nest = Nester::new(&[0xa0]);
             for _ in 0..n {
-                h = wrap_edge("sp", &h);
+                nest.wrap_edge("sp");
                 for k in 0..upl {
-                    h = wrap_edge(if k % 2 == 0 { "su" } else { "au" }, &h);
+                    nest.wrap_edge(if k % 2 == 0 { "su" } else { "au" });
                 }
             }
+            let h = nest.finish();
             let (ty, entry, bytes) = header_entries(&h).into_iter().nth(carrier)?;
             Some((vec![(ty, entry)], bytes))
         }
         "recipients" => {
             // recipient in recipient, n deep
-            let mut r = vec![0x83u8, 0x40, 0xa0, 0xf6];
+            let mut nest = Nester::new(&[0x83, 0x40, 0xa0, 0xf6]);
             for _ in 0..n {
-                r = [&[0x84u8, 0x40, 0xa0, 0xf6, 0x81][..], &r].concat();
+                nest.wrap(&[0x84, 0x40, 0xa0, 0xf6, 0x81], &[]);
             }
+            let r = nest.finish();
             match parts[1] {
                 "recipient" => Some((vec![(Ty::Recipient, Entry::Slice)], r)),
                 "encrypt" => Some((vec![(Ty::Encrypt, Entry::Slice), (Ty::Encrypt, Entry::Tagged)], [&[0x84u8, 0x40, 0xa0, 0xf6, 0x81][..], &r].concat())),
@@ -388,15 +466,16 @@ pub fn family(name: &str, n: usize) -> Option<(Vec<(Ty, Entry)>, Vec<u8>)> {
         }
         "nest" => {
             // plain array / map / tag nesting, as an opaque extra value and as a top-level item
-            let mut v = vec![0x00u8];
+            let mut nest = Nester::new(&[0x00]);
             for _ in 0..n {
-                v = match parts[1] {
-                    "array" => [&[0x81u8][..], &v].concat(),
-                    "map" => [&[0xa1u8, 0x01][..], &v].concat(),
-                    "tag" => [&[0xc6u8][..], &v].concat(),
-                    _ => [&[0x9fu8][..], &v, &[0xff]].concat(),
-                };
+                match parts[1] {
+                    "array" => nest.wrap(&[0x81], &[]),
+                    "map" => nest.wrap(&[0xa1, 0x01], &[]),
+                    "tag" => nest.wrap(&[0xc6], &[]),
+                    _ => nest.wrap(&[0x9f], &[0xff]),
+                }
             }
+            let v = nest.finish();
             let hdr = [&[0xa1u8, 0x18, 0x63][..], &v].concat();
             match parts[2] {
                 "extra" => Some((vec![(Ty::Header, Entry::Slice), (Ty::Key, Entry::Slice), (Ty::Claims, Entry::Slice)], hdr)),
